@@ -352,6 +352,89 @@ def call_base(call):
     return None
 
 
+
+# --------------------------------------------------------------------------- helper expansion
+
+
+def _copy_node(n):
+    if n is None:
+        return None
+    if isinstance(n, list):
+        return [_copy_node(x) for x in n]
+    if not isinstance(n, dict):
+        return n
+    return {k: (_copy_node(v) if isinstance(v, (dict, list)) else v) for k, v in n.items() if not k.startswith("_")}
+
+
+def expand_member_helpers(facts, fn, depth=3, _stack=()):
+    """A copy of the function record in which every statement-level call of a member function of the same class
+    (one definition, body available, no `return` other than a trailing one, not recursive) is replaced by the callee's
+    body, parameters bound as const locals.  A constructor / rebuild() pair whose common part was extracted into a
+    private helper is then analysed exactly like the unextracted code.  Calls that are not statements are left alone."""
+    b = body(fn)
+    if b is None or depth <= 0:
+        return fn
+    cls = fn.get("cls")
+    changed = [False]
+
+    def helper_for(call):
+        if call.get("k") not in ("CallExpr", "CXXMemberCallExpr"):
+            return None
+        base = call_base(call)
+        if base is not None and strip(base).get("k") != "CXXThisExpr":
+            return None
+        nm = callee_name(call)
+        cands = [g for g in facts.methods_of(cls) if g["name"] == nm and body(g) is not None and g.get("kind") not in ("CXXConstructor", "CXXDestructor")
+                 and len(g["params"]) == len(call_args(call))]
+        if len(cands) != 1 or cands[0] is fn or cands[0]["qname"] in _stack:
+            return None
+        g = cands[0]
+        rets = [x for x in walk(body(g), into_lambdas=False) if x.get("k") == "ReturnStmt"]
+        top = kids(body(g))
+        if any(not (top and r is top[-1] and not kids(r)) for r in rets):
+            return None     # the helper returns a value or leaves early: not a plain block of statements
+        return g
+
+    def rec(n):
+        if n is None:
+            return None
+        out = {k: v for k, v in n.items() if not k.startswith("_") and k != "c"}
+        ch = []
+        for c in n.get("c", []):
+            if c is not None and n.get("k") == "CompoundStmt":
+                g = helper_for(c)
+                if g is not None:
+                    ge = expand_member_helpers(facts, g, depth - 1, _stack + (fn["qname"],))
+                    gb = _copy_node(body(ge))
+                    bind = []
+                    pd = set()
+                    for p_, a in zip(g["params"], call_args(c)):
+                        pd.add(p_["did"])
+                        bind.append({"k": "DeclStmt", "l": c.get("l"), "b": c.get("b"), "e": c.get("e"),
+                                     "c": [{"k": "VarDecl", "name": p_["name"], "did": p_["did"], "t": p_["t"], "local": True, "initstyle": "c",
+                                            "l": c.get("l"), "b": c.get("b"), "e": c.get("e"), "c": [rec(a)]}]})
+                    if pd:
+                        for x in walk(gb):
+                            if x.get("k") == "DeclRefExpr" and x.get("did") in pd:
+                                x["dk"] = "Var"
+                    ch.append({"k": "CompoundStmt", "l": c.get("l"), "b": c.get("b"), "e": c.get("e"), "c": bind + kids(gb), "inlined": g["qname"]})
+                    changed[0] = True
+                    continue
+            ch.append(rec(c))
+        out["c"] = ch
+        for extra in ("clauses", "params", "captures", "pre"):
+            if extra in n:
+                out[extra] = [rec(x) if isinstance(x, dict) and "k" in x else _copy_node(x) for x in n[extra]]
+        return out
+
+    nb = rec(b)
+    if not changed[0]:
+        return fn
+    fn2 = {k: v for k, v in fn.items() if k != "body"}
+    fn2["body"] = [nb]
+    fn2["expanded"] = True
+    return fn2
+
 # --------------------------------------------------------------------------- results
 
 
